@@ -212,6 +212,25 @@ def run_shard(spec, tier, seed, budget_s):
             suite = 'random.mlnote' if ml else 'random'
             if not ml and rng.random() < 0.2 and gen.same_bare_names(doc, rng):
                 suite = 'random.samebare'
+            if not ml and rng.random() < 0.25:
+                # block-note sites (table / group / project / sticky) round-trip any text: give them rich multi-line
+                # texts with quotes and backslashes (no ''' and no blank-only interior line: known findings of C13)
+                suite = 'random.richnotes'
+                rich = gen.Texts(rng, 'rich')
+
+                def rich_note():
+                    t = rich.note('rn', 0.7).replace("'''", "''")
+                    return t + rng.choice(['', "'", ' "', '\\', " it's", "\n'", "\nend'"])
+                for t in doc.tables:
+                    if t.note is not None:
+                        t.note = rich_note()
+                for g in doc.groups:
+                    if g.note is not None:
+                        g.note = rich_note()
+                if doc.project is not None and doc.project.note is not None:
+                    doc.project.note = rich_note()
+                for st in doc.stickies:
+                    st.text = rich_note()
             text = surface.render(doc, f'{seed}-{i}-{k}')
             db, err = parse(text, allow_properties=props)
             if err is None:
